@@ -9,6 +9,7 @@ import psutil
 from .headers import HeaderwordInfo
 from .conversion_utils import run_conversion_loop
 from .read import SgzReader
+from .version import SeismicZfpVersion
 from .sgzconstants import DISK_BLOCK_BYTES, SEGY_FILE_HEADER_BYTES
 from .seismicfile import SeismicFile, Filetype
 from .utils import (pad,
@@ -371,7 +372,10 @@ class SgzConverter(SgzReader):
                         outfile.write(new_block)
             self.read_variant_headers()
             for k, header_array in self.variant_headers.items():
-                outfile.write(header_array.tobytes())
+                # Files written after v0.2.1 have each header array padded to 512 bytes: keep the source's convention
+                padding = bytes(-len(header_array.tobytes()) % 512) \
+                    if self.file_version > SeismicZfpVersion("0.2.1") else b''
+                outfile.write(header_array.tobytes() + padding)
 
 
 class NumpyConverter(object):
